@@ -447,7 +447,9 @@ static void large_step(Run &r, Counters &c, size_t max, size_t off, size_t len, 
 // giant states: only appending/prepending a few bytes; content = the few stored bytes
 static void giant_step(Run &r, Counters &c, size_t max, size_t off, size_t len, int op, size_t a)
 {
-	mpt::queue q; q.base = malloc(max); q.max = max; q.off = off; q.len = len;
+	// one reservation per worker process, never touched except for the few stored bytes (2 GiB allocations are slow under ASan)
+	static void *store = malloc((size_t) 3 << 30);
+	mpt::queue q; q.base = store; q.max = max; q.off = off; q.len = len;
 	std::string sig = std::string(opn[op]) + "|giant," + (wrapped(max, off, len) ? "wrapped" : "linear") + "|in-range|";
 	std::string desc = fmt("state(max=%zu,off=%zu,len=%zu) %s(%zu)", max, off, len, opn[op], a);
 	if (!q.base) { r.note("cannot reserve %zu bytes", max); return; }
@@ -469,7 +471,7 @@ static void giant_step(Run &r, Counters &c, size_t max, size_t off, size_t len, 
 	else if (q.len != m.size() || q.len > q.max || q.off > q.max) r.violation(sig + "wrong-result", desc + fmt(": post state (max=%zu,off=%zu,len=%zu), deque length %zu", q.max, q.off, q.len, m.size()));
 	else if (q.len && (mpt_queue_get(&q, 0, q.len, got.data()) < 0 || got != want || asan_error())) r.violation(sig + "wrong-result", desc + ": content " + hex(got.data(), got.size()) + " != deque " + hex(want.data(), want.size()));
 	if (wrapped(max, off, len) || wrapped(q.max, q.off, q.len)) ++c.nontrivial;
-	free(q.base);
+	if (q.base != store) { r.violation(sig + "wrong-result", desc + ": storage was reallocated although the request fits"); store = q.base; }
 }
 
 // copies of an io::queue object: only compiled into a real scenario while the class is copyable
